@@ -1,5 +1,5 @@
 SPECIFICATION Spec
-CONSTANTS MaxN = 2  MaxNT = 2  Ws = {1, 2, 3}  WsBox = {1, 2}  Origins <- OriginsDef  Rotate = FALSE  Pad = 6  Variant = "cfl_first_spacing"
+CONSTANTS MaxN = 2  MaxNT = 2  Ws = {1, 2, 3}  WsBox = {1, 2}  Origins = {0}  Rotate = FALSE  Pad = 6  Variant = "cfl_first_spacing"
 INVARIANT GridOK
 INVARIANT SnapCorrect
 INVARIANT CentreCorrect
